@@ -120,3 +120,41 @@ func VerifH26Forward() {
 		verifAssert(ok && v == bval, "forwarded call: bool argument keeps its value")
 	}
 }
+
+// H06(PQL): numeric literals far outside the machine ranges (a long run of
+// concrete digits with symbolic sign, first digit, optional fraction and
+// position in the call) are rejected with an error or parsed; no panic escapes
+// Parse. The digit run is concrete - its length (bound "digits") is what
+// pushes the literal out of the int64 / float64 ranges.
+func VerifH06HugeNumbers() {
+	n := verifBound("digits", 400)
+	d := verifU8("digit")
+	verifAssume(verifAnd(d >= '1', d <= '9'))
+	lit := make([]byte, 0, n+4)
+	if verifChoice("sign", 2) == 1 {
+		lit = append(lit, '-')
+	}
+	lit = append(lit, d)
+	for i := 0; i < n; i++ {
+		lit = append(lit, '0')
+	}
+	if verifChoice("fraction", 2) == 1 {
+		f := verifU8("fracdigit")
+		verifAssume(verifAnd(f >= '0', f <= '9'))
+		lit = append(lit, '.', f)
+	}
+	var text string
+	switch verifChoice("position", 4) {
+	case 0:
+		text = "Row(f=" + string(lit) + ")"
+	case 1:
+		text = "Row(f > " + string(lit) + ")"
+	case 2:
+		text = "Set(" + string(lit) + ", f=1)"
+	default:
+		text = "SetRowAttrs(f, 1, x=" + string(lit) + ")"
+	}
+	_, err := ParseString(text)
+	verifReach("huge literal handled")
+	verifAssert(err != nil || n < 18, "a literal outside the numeric ranges is rejected with an error")
+}
